@@ -474,7 +474,29 @@ def c07(ck, F, tier):
     guarded(ck, re_.hash_order, F)
 
 
-PROPS = {"C08": c08, "C07": c07, "C06": c06, "C18": c18, "C32": c32, "C30": c30, "C27": c27, "C31": c31, "C33": c33, "C12": c12, "C13": c13, "C14": c14, "C15": c15, "C16": c16, "C09": c09, "C22": c22, "C34": c34, "C21": c21, "C05": c05, "C28": c28, "C10": c10, "C29": c29, "C17": c17, "C01": c01, "C02": c02, "C03": c03, "C04": c04, "C23": c23, "C26": c26}
+def c24(ck, F, tier):
+    import rules_io as io
+    import rules_paren as rp
+    import rules_names as rn
+    from tables import load_tables
+    ck.explanation = (
+        "Static decision of writer/reader coverage: every field of Worksheet, Row, Col, DefinedName, Workbook, Font, Fill, "
+        "Border, BorderItem, Alignment, NumFmt, CellXfs, Styles and ConditionalFormatting is read by code reachable from "
+        "save_xlsx_to_writer and set from the package by code reachable from load_from_xlsx_bytes (allow-list with reasons); "
+        "every Cell variant has an export arm and an import constructor; formulas go out through to_excel_string and come in "
+        "through an English parser; the PAREN cells of C09 with the export flag set, the literal tables of errors and the XML "
+        "escape table. That values and attributes survive numerically and textually is not decided.")
+    ck.rule("COVER-xlsx", "every persistent field is written by the exporter and read by the importer", floor=120)
+    ck.rule("XML-ESCAPE", "the five XML-special characters are escaped", floor=5, exhaustive=True)
+    ck.rule("PAREN", "child kind not producible by the grammar at that position => printer parenthesises it (export form)", floor=400, exhaustive=True)
+    ck.rule("TABLE-errors", "error literal tables agree (printer <-> parsers)", floor=40, exhaustive=True)
+    guarded(ck, io.cover_xlsx, F)
+    guarded(ck, io.escape_table, F)
+    guarded(ck, rp.paren_rule, F, "PAREN", "stringify::stringify", exports=(True,))
+    guarded(ck, rn.error_tables, F, load_tables(F))
+
+
+PROPS = {"C08": c08, "C24": c24, "C07": c07, "C06": c06, "C18": c18, "C32": c32, "C30": c30, "C27": c27, "C31": c31, "C33": c33, "C12": c12, "C13": c13, "C14": c14, "C15": c15, "C16": c16, "C09": c09, "C22": c22, "C34": c34, "C21": c21, "C05": c05, "C28": c28, "C10": c10, "C29": c29, "C17": c17, "C01": c01, "C02": c02, "C03": c03, "C04": c04, "C23": c23, "C26": c26}
 
 
 def run(pid, tier):
